@@ -401,43 +401,57 @@ def run(ctx):
                     okp = any(nm and nm.endswith("local::TEMP_PREFIX") for nm in firstnames) and starts_with_arg
                     detp = f"first formatted argument is {firstnames}; template begins with an argument placeholder: {starts_with_arg}"
             ctx.ob("R3.reserved-prefix", "writer-name-starts-with-prefix", okp, tp.loc(), detp)
+    # the reader's test may live in the helper `is_temp_file_name` or be written out in `list` itself
+    from ..analysis import _closure_receiver_call
+    lst = prog.one("<cbh_storage::local::LocalStorage as cbh_storage::port::Storage>::list::{closure#0}")
     itf = prog.one("local::is_temp_file_name")
-    if itf is None:
-        ctx.missing("R3.reserved-prefix", "local::is_temp_file_name")
+    if itf is not None and lst is not None and (itf.key == lst.key or lst.key.startswith(itf.key + "::")):
+        itf = None      # folded into list (the anchor resolves to list's shell or coroutine)
+    if lst is None:
+        ctx.missing("R3.reserved-prefix", "LocalStorage::list coroutine")
     else:
+        homes = ([itf] + prog.closures_of(itf)) if itf is not None else ([lst] + prog.closures_of(lst))
         ok = False
         det = ""
-        for cb in prog.closures_of(itf) + [itf]:
+        sw_home = None
+        for cb in homes:
             for bb, t in cb.calls():
                 if t["callee"].get("method") == "starts_with":
                     c = resolve_const(cb, t["args"][1])
-                    ok = bool(c and (c.get("name") or "").endswith("local::TEMP_PREFIX"))
+                    if c and (c.get("name") or "").endswith("local::TEMP_PREFIX"):
+                        ok = True
+                        sw_home = cb
                     det = f"starts_with({(c or {}).get('name')})"
-        ctx.ob("R3.reserved-prefix", "reader-tests-same-constant", ok, itf.loc(), det or "no starts_with call found")
-        # the predicate returns that test's result (is_some_and) - result flows to _0
-        lst = prog.one("<cbh_storage::local::LocalStorage as cbh_storage::port::Storage>::list::{closure#0}")
-        if lst is None:
-            ctx.missing("R3.reserved-prefix", "LocalStorage::list coroutine")
-        else:
-            rk = [bb for bb, t in lst.calls() if callee_key(t["callee"]).endswith("local::relative_key")]
-            ic2 = [bb for bb, t in lst.calls() if itf.key in callee_paths(t["callee"])]
-            pushes = [bb for bb, t in lst.calls() if callee_key(t["callee"]).endswith("Vec::push")]
-            dl = lst.dominators(unwind=False)
-            ok = bool(rk) and len(ic2) == 1
-            det = f"relative_key sites {rk}, is_temp_file_name sites {ic2}"
-            if ok:
-                for r in rk:
-                    gs = switch_guards(lst, r, dom=dl)
-                    g_ok = False
-                    for g in gs:
-                        if g["src"].get("kind") == "call" and g["src"].get("bb") == ic2[0]:
-                            g_ok = g["allowed"] == {0}
-                    ok = ok and g_ok
-                det += f"; every key-producing site is on the `false` arm of is_temp_file_name: {ok}"
-                # every push of a *key* (String) is dominated by a relative_key call
-                keypush = [bb for bb in pushes if "String" in lst.blocks[bb].term["callee"]["full"]]
-                ok = ok and bool(keypush) and all(any(r in dl[pb] for r in rk) for pb in keypush)
-            ctx.ob("R3.reserved-prefix", "list-filters-before-key", ok, lst.loc(), det)
+        ctx.ob("R3.reserved-prefix", "reader-tests-same-constant", ok, (itf or lst).loc(), det or "no starts_with call found")
+        # the call in `list` whose boolean result is that test
+        test_calls = []
+        if itf is not None:
+            test_calls = [(bb, t) for bb, t in lst.calls() if itf.key in callee_paths(t["callee"])]
+        elif sw_home is not None:
+            if sw_home is lst:
+                test_calls = [(bb, t) for bb, t in lst.calls() if t["callee"].get("method") == "starts_with"]
+            else:
+                rc = _closure_receiver_call(prog, lst, sw_home)
+                test_calls = [rc] if rc else []
+        rk = [bb for bb, t in lst.calls() if callee_key(t["callee"]).endswith("local::relative_key")]
+        pushes = [bb for bb, t in lst.calls() if callee_key(t["callee"]).endswith("Vec::push")]
+        dl = lst.dominators(unwind=False)
+        ok = bool(rk) and len(test_calls) == 1
+        det = f"relative_key sites {rk}, temp-name test sites {[bb for bb, _t in test_calls]}"
+        if ok:
+            tterm = test_calls[0][1]
+            for r in rk:
+                gs = switch_guards(lst, r, dom=dl)
+                g_ok = False
+                for g in gs:
+                    if g["src"].get("kind") == "call" and g["src"].get("term") is tterm:
+                        g_ok = g["allowed"] == {0}
+                ok = ok and g_ok
+            det += f"; every key-producing site is on the `false` arm of the temp-name test: {ok}"
+            # every push of a *key* (String) is dominated by a relative_key call
+            keypush = [bb for bb in pushes if "String" in lst.blocks[bb].term["callee"]["full"]]
+            ok = ok and bool(keypush) and all(any(r in dl[pb] for r in rk) for pb in keypush)
+        ctx.ob("R3.reserved-prefix", "list-filters-before-key", ok, lst.loc(), det)
 
     # ---- R4
     put = prog.one("<cbh_storage::local::LocalStorage as cbh_storage::port::Storage>::put::{closure#0}")
@@ -464,6 +478,15 @@ def run(ctx):
                     # ((res as Ok).0: bool)
                     if any(isinstance(e, dict) and e.get("v") == "Ok" for e in pl["p"]):
                         false_arm = g["allowed"] == {0}
+            if not (ok_arm and false_arm):
+                # `let exists = try_exists(..).await.map_err(..)?; if exists {..}`: the bool tested derives from the awaited result
+                # (it can only be obtained from the Ok payload) and the write sits on its `false` side
+                for g in gs:
+                    dl = g.get("discr_local")
+                    if dl is None or put.local_ty(dl)["s"] != "bool":
+                        continue
+                    if set(Slice(put).run({"k": "copy", "place": {"l": dl, "p": []}})["locals"]) & set(rl) and g["allowed"] == {0}:
+                        ok_arm = false_arm = True
             ok = ok_arm and false_arm
             det += f"; write_atomic guarded by Ok arm={ok_arm} and by `false` payload={false_arm}"
             # the same path of the argument
@@ -484,6 +507,12 @@ def run(ctx):
             gs = switch_guards(put, ae[0], dom=dp)
             t_arm = any((guard_src_place(g["src"]) or {}).get("l") in rl and (guard_src_place(g["src"]) or {}).get("p")
                         and 0 not in g["allowed"] for g in gs)
+            if not t_arm:
+                for g in gs:
+                    dl = g.get("discr_local")
+                    if dl is not None and put.local_ty(dl)["s"] == "bool" and 0 not in g["allowed"] and g["allowed"] and \
+                            set(Slice(put).run({"k": "copy", "place": {"l": dl, "p": []}})["locals"]) & set(rl):
+                        t_arm = True
             # and cannot reach write_atomic afterwards
             after = put.successors_reach(ae[0], unwind=False)
             ok2 = t_arm and not (set(wcalls) & after)
